@@ -631,6 +631,20 @@ func zipSingleFaults(b *base, emit func(desc string, data []byte)) {
 			}
 		}
 		xmlEmit("deep-nesting", strings.Repeat("<a>", 20000)+s)
+		// the XML declaration: encoding labels the reader may not know (a decoder
+		// hook has to answer for every label), other versions, a second declaration
+		body := s
+		if strings.HasPrefix(s, "<?xml") {
+			if e := strings.Index(s, "?>"); e > 0 {
+				body = s[e+2:]
+			}
+		}
+		for _, enc := range []string{"UTF-9", "utf8", "UTF-16", "windows-1252", "ISO-8859-1", "us-ascii", "", "x", "UTF-8\x00"} {
+			xmlEmit("xmldecl-encoding="+enc, `<?xml version="1.0" encoding="`+enc+`"?>`+body)
+		}
+		xmlEmit("xmldecl-version=9.9", `<?xml version="9.9" encoding="UTF-8"?>`+body)
+		xmlEmit("xmldecl-twice", `<?xml version="1.0" encoding="UTF-8"?><?xml version="1.0" encoding="latin1"?>`+body)
+		xmlEmit("xmldecl-unclosed", `<?xml version="1.0" encoding="UTF-8"`+body)
 		for _, span := range []string{"gridSpan", "rowspan", "colspan", "number-columns-repeated", "number-rows-repeated", "number-columns-spanned", "number-rows-spanned", "w:val", "count", "uniqueCount", "sheetId", "r:id"} {
 			if j := strings.Index(s, span+`="`); j >= 0 {
 				e := strings.Index(s[j+len(span)+2:], `"`)
